@@ -289,10 +289,10 @@ def main(tier, seed):
     q = tier == "quick"
     names = sorted({c.__name__ for c in discover.avp_classes()})
     batches = []
-    n = 40 if q else 1500
+    n = 40 if q else 6000
     for i in range(0, len(names), 7):
         batches.append({"kind": "classes", "classes": names[i:i + 7], "n": n, "seed": seed * 10007 + i})
-    for i in range(4 if q else 16):
+    for i in range(4 if q else 48):
         batches.append({"kind": "generic", "n": 1500 if q else 12000, "seed": seed * 10007 + 5000 + i})
         batches.append({"kind": "messages", "n": 500 if q else 8000, "maxavps": 8, "seed": seed * 10007 + 6000 + i})
         batches.append({"kind": "deep", "n": 300 if q else 4000, "seed": seed * 10007 + 7000 + i})
